@@ -20,6 +20,7 @@ package props
 
 import (
 	"bytes"
+	"crypto/sha256"
 	"encoding/json"
 	"fmt"
 	"math/rand"
@@ -839,6 +840,335 @@ func c03SameBlockSpends(s *chain.Sim, rng *rand.Rand, ts time.Time, miner types.
 	return
 }
 
+
+// c03Recipe registers a fresh wallet address of the given kind whose keys come from rng (not from the
+// simulator's generator, so the chain stays the same whether or not the sweep runs).
+func c03Recipe(s *chain.Sim, rng *rand.Rand, kind string) *chain.Recipe {
+	key := func() types.PrivateKey {
+		seed := make([]byte, 32)
+		rng.Read(seed)
+		return types.NewPrivateKeyFromSeed(seed)
+	}
+	uk := func(pk types.PublicKey) types.UnlockKey { return types.UnlockKey{Algorithm: types.SpecifierEd25519, Key: pk[:]} }
+	r := &chain.Recipe{Kind: kind}
+	switch kind {
+	case "uc1":
+		return c03Attacker(s, rng)
+	case "uc2of3":
+		ks := []types.PrivateKey{key(), key(), key()}
+		uc := types.UnlockConditions{SignaturesRequired: 2}
+		for _, k := range ks {
+			uc.PublicKeys = append(uc.PublicKeys, uk(k.PublicKey()))
+		}
+		r.UC = &uc
+		r.Keys, r.UCKeyIdx = []types.PrivateKey{ks[0], ks[2]}, []uint64{0, 2}
+		r.Policy = types.SpendPolicy{Type: types.PolicyTypeUnlockConditions(uc)}
+		r.Addr = uc.UnlockHash()
+	case "pk":
+		k := key()
+		r.Policy = types.PolicyPublicKey(k.PublicKey())
+		r.Keys = []types.PrivateKey{k}
+		r.Addr = r.Policy.Address()
+	case "hash":
+		var pre [32]byte
+		rng.Read(pre[:])
+		r.Policy = types.PolicyHash(sha256.Sum256(pre[:]))
+		r.Preimages = [][32]byte{pre}
+		r.Addr = r.Policy.Address()
+	case "thresh":
+		k1, k2 := key(), key()
+		var pre [32]byte
+		rng.Read(pre[:])
+		subs := []types.SpendPolicy{types.PolicyPublicKey(k1.PublicKey()), types.PolicyHash(sha256.Sum256(pre[:])), types.PolicyPublicKey(k2.PublicKey())}
+		r.Policy = types.PolicyThreshold(2, subs)
+		r.Reveal = types.PolicyThreshold(2, []types.SpendPolicy{subs[0], subs[1], types.PolicyOpaque(subs[2])})
+		r.Keys = []types.PrivateKey{k1}
+		r.Preimages = [][32]byte{pre}
+		r.Addr = r.Policy.Address()
+	default:
+		panic("c03Recipe: " + kind)
+	}
+	if r.Reveal.Type == nil {
+		r.Reveal = r.Policy
+	}
+	s.W.Recipes[r.Addr] = r
+	return r
+}
+
+func c03PickSC(s *chain.Sim, v2 bool) (types.SiacoinElement, bool) {
+	var ids []types.SiacoinOutputID
+	for id := range s.St.SC {
+		ids = append(ids, id)
+	}
+	sort.Slice(ids, func(i, j int) bool { return bytes.Compare(ids[i][:], ids[j][:]) < 0 })
+	child := s.ChildHeight()
+	for _, id := range ids {
+		e := s.St.SC[id]
+		r := s.RecipeFor(e.SiacoinOutput.Address)
+		if r == nil || e.MaturityHeight > child || e.SiacoinOutput.Value.Cmp(types.NewCurrency64(10)) < 0 || !s.Spendable(e.SiacoinOutput.Address, v2) || (!v2 && !r.V1Spendable()) {
+			continue
+		}
+		return e, true
+	}
+	return types.SiacoinElement{}, false
+}
+
+func c03PickSF(s *chain.Sim) (types.SiafundElement, bool) {
+	var ids []types.SiafundOutputID
+	for id := range s.St.SF {
+		ids = append(ids, id)
+	}
+	sort.Slice(ids, func(i, j int) bool { return bytes.Compare(ids[i][:], ids[j][:]) < 0 })
+	for _, id := range ids {
+		e := s.St.SF[id]
+		if s.RecipeFor(e.SiafundOutput.Address) == nil || e.SiafundOutput.Value < 2 || !s.Spendable(e.SiafundOutput.Address, true) {
+			continue
+		}
+		return e, true
+	}
+	return types.SiafundElement{}, false
+}
+
+// c03Pending: two outputs (and possibly two siafund outputs) paid to ONE address by the block just applied.
+type c03Pending struct {
+	r    *chain.Recipe
+	sc   []types.SiacoinOutputID
+	sf   []types.SiafundOutputID
+	kind string
+}
+
+// c03PayTwice applies a block that pays two siacoin outputs (and, when possible, two siafund outputs) to one
+// fresh wallet address.
+func c03PayTwice(s *chain.Sim, rng *rand.Rand, ts time.Time, miner types.Address) *c03Pending {
+	v2 := s.V2Allowed()
+	kinds := []string{"uc1", "uc2of3"}
+	if v2 {
+		kinds = []string{"pk", "thresh", "hash", "uc1", "uc2of3", "pk", "thresh"}
+	}
+	kind := kinds[rng.Intn(len(kinds))]
+	e, ok := c03PickSC(s, v2)
+	if !ok {
+		return nil
+	}
+	r := c03Recipe(s, rng, kind)
+	half := e.SiacoinOutput.Value.Div64(2)
+	outs := []types.SiacoinOutput{{Value: half, Address: r.Addr}, {Value: e.SiacoinOutput.Value.Sub(half), Address: r.Addr}}
+	pd := &c03Pending{r: r, kind: kind}
+	blk := types.Block{Timestamp: ts}
+	var supp consensus.V1BlockSupplement
+	if v2 {
+		t1 := types.V2Transaction{SiacoinInputs: []types.V2SiacoinInput{{Parent: e.Copy()}}, SiacoinOutputs: outs}
+		if !s.ResignV2(&t1) {
+			return nil
+		}
+		blk.V2 = &types.V2BlockData{Transactions: []types.V2Transaction{t1}}
+		txid := t1.ID()
+		pd.sc = []types.SiacoinOutputID{t1.SiacoinOutputID(txid, 0), t1.SiacoinOutputID(txid, 1)}
+		if f, ok := c03PickSF(s); ok {
+			t2 := types.V2Transaction{SiafundInputs: []types.V2SiafundInput{{Parent: f.Copy(), ClaimAddress: r.Addr}},
+				SiafundOutputs: []types.SiafundOutput{{Value: 1, Address: r.Addr}, {Value: f.SiafundOutput.Value - 1, Address: r.Addr}}}
+			if s.ResignV2(&t2) {
+				blk.V2.Transactions = append(blk.V2.Transactions, t2)
+				id2 := t2.ID()
+				pd.sf = []types.SiafundOutputID{t2.SiafundOutputID(id2, 0), t2.SiafundOutputID(id2, 1)}
+			}
+		}
+	} else {
+		er := s.RecipeFor(e.SiacoinOutput.Address)
+		t1 := types.Transaction{SiacoinInputs: []types.SiacoinInput{{ParentID: e.ID, UnlockConditions: *er.UC}}, SiacoinOutputs: outs}
+		if !s.ResignV1(&t1) {
+			return nil
+		}
+		blk.Transactions = []types.Transaction{t1}
+		supp.Transactions = []consensus.V1TransactionSupplement{{SiacoinInputs: []types.SiacoinElement{e.Copy()}}}
+		pd.sc = []types.SiacoinOutputID{t1.SiacoinOutputID(0), t1.SiacoinOutputID(1)}
+	}
+	s.Seal(&blk, miner)
+	if _, err := s.Apply(blk, supp); err != nil {
+		return nil
+	}
+	return pd
+}
+
+// c03SecondInput builds, on the tip, transactions that spend the TWO outputs paid to one address in one
+// transaction: the honest ones (control) and, for each, copies in which the witness of the SECOND input only
+// (and of the FIRST only) is corrupted.
+func c03SecondInput(s *chain.Sim, rng *rand.Rand, pd *c03Pending, ts time.Time, miner types.Address) (control []mutant, attacks []mutant) {
+	sink := c03Attacker(s, rng).Addr
+	seal := func(kind string, blk types.Block, supp consensus.V1BlockSupplement) mutant {
+		s.Seal(&blk, miner)
+		return mutant{kind, blk, supp}
+	}
+	var scs []types.SiacoinElement
+	for _, id := range pd.sc {
+		if e, ok := s.St.SC[id]; ok {
+			scs = append(scs, e)
+		}
+	}
+	corrupt := func(what string, sp *types.SatisfiedPolicy, sigHash types.Hash256) bool {
+		switch what {
+		case "sig-flip":
+			if len(sp.Signatures) == 0 {
+				return false
+			}
+			sp.Signatures[0] = flipSig(sp.Signatures[0], rng)
+		case "sig-drop":
+			if len(sp.Signatures) == 0 {
+				return false
+			}
+			sp.Signatures = sp.Signatures[1:]
+		case "sig-surplus":
+			sp.Signatures = append(sp.Signatures, c03Attacker(s, rng).Keys[0].SignHash(sigHash))
+		case "sig-other-key":
+			if len(sp.Signatures) == 0 {
+				return false
+			}
+			sp.Signatures[0] = c03Attacker(s, rng).Keys[0].SignHash(sigHash)
+		case "preimage-wrong":
+			if len(sp.Preimages) == 0 {
+				return false
+			}
+			sp.Preimages[0][rng.Intn(32)] ^= 1
+		case "preimage-drop":
+			if len(sp.Preimages) == 0 {
+				return false
+			}
+			sp.Preimages = sp.Preimages[1:]
+		case "preimage-surplus":
+			var pre [32]byte
+			rng.Read(pre[:])
+			sp.Preimages = append(sp.Preimages, pre)
+		case "opaque":
+			// a threshold with every sub-policy opaque (same address), no witness
+			th, ok := sp.Policy.Type.(types.PolicyTypeThreshold)
+			if !ok {
+				return false
+			}
+			var of []types.SpendPolicy
+			for _, sub := range th.Of {
+				if _, isOpaque := sub.Type.(types.PolicyTypeOpaque); isOpaque {
+					of = append(of, sub)
+				} else {
+					of = append(of, types.PolicyOpaque(sub))
+				}
+			}
+			*sp = types.SatisfiedPolicy{Policy: types.PolicyThreshold(th.N, of)}
+		case "no-witness":
+			sp.Signatures, sp.Preimages = nil, nil
+		}
+		return true
+	}
+	whats := []string{"sig-flip", "sig-drop", "sig-surplus", "sig-other-key", "preimage-wrong", "preimage-drop", "preimage-surplus", "opaque", "no-witness"}
+	if s.V2Allowed() && len(scs) == 2 && s.Spendable(pd.r.Addr, true) {
+		t := types.V2Transaction{SiacoinInputs: []types.V2SiacoinInput{{Parent: scs[0].Copy()}, {Parent: scs[1].Copy()}},
+			SiacoinOutputs: []types.SiacoinOutput{{Value: scs[0].SiacoinOutput.Value.Add(scs[1].SiacoinOutput.Value), Address: sink}}}
+		if s.ResignV2(&t) {
+			control = append(control, seal("v2-two-inputs-same-address-honest", types.Block{Timestamp: ts, V2: &types.V2BlockData{Transactions: []types.V2Transaction{t.DeepCopy()}}}, consensus.V1BlockSupplement{}))
+			h := s.Tip.InputSigHash(t)
+			for _, which := range []int{1, 0} {
+				for _, what := range whats {
+					c := t.DeepCopy()
+					if !corrupt(what, &c.SiacoinInputs[which].SatisfiedPolicy, h) {
+						continue
+					}
+					name := "v2-second-input-same-address:" + what
+					if which == 0 {
+						name = "v2-first-input-same-address:" + what
+					}
+					attacks = append(attacks, seal(name, types.Block{Timestamp: ts, V2: &types.V2BlockData{Transactions: []types.V2Transaction{c}}}, consensus.V1BlockSupplement{}))
+				}
+			}
+		}
+	}
+	var sfs []types.SiafundElement
+	for _, id := range pd.sf {
+		if e, ok := s.St.SF[id]; ok {
+			sfs = append(sfs, e)
+		}
+	}
+	if s.V2Allowed() && len(sfs) == 2 && s.Spendable(pd.r.Addr, true) && s.ChildHeight() >= s.Net.HardforkV2.AllowHeight {
+		t := types.V2Transaction{SiafundInputs: []types.V2SiafundInput{{Parent: sfs[0].Copy(), ClaimAddress: sink}, {Parent: sfs[1].Copy(), ClaimAddress: sink}},
+			SiafundOutputs: []types.SiafundOutput{{Value: sfs[0].SiafundOutput.Value + sfs[1].SiafundOutput.Value, Address: sink}}}
+		if s.ResignV2(&t) {
+			control = append(control, seal("v2-two-siafund-inputs-same-address-honest", types.Block{Timestamp: ts, V2: &types.V2BlockData{Transactions: []types.V2Transaction{t.DeepCopy()}}}, consensus.V1BlockSupplement{}))
+			h := s.Tip.InputSigHash(t)
+			for _, which := range []int{1, 0} {
+				for _, what := range whats {
+					c := t.DeepCopy()
+					if !corrupt(what, &c.SiafundInputs[which].SatisfiedPolicy, h) {
+						continue
+					}
+					name := "v2-second-input-same-address-siafund:" + what
+					if which == 0 {
+						name = "v2-first-input-same-address-siafund:" + what
+					}
+					attacks = append(attacks, seal(name, types.Block{Timestamp: ts, V2: &types.V2BlockData{Transactions: []types.V2Transaction{c}}}, consensus.V1BlockSupplement{}))
+				}
+			}
+		}
+	}
+	// v1: two inputs revealing the same unlock conditions
+	if !s.V1Forbidden() && pd.r.UC != nil && len(scs) == 2 && s.Spendable(pd.r.Addr, false) {
+		t := types.Transaction{SiacoinInputs: []types.SiacoinInput{{ParentID: scs[0].ID, UnlockConditions: *pd.r.UC}, {ParentID: scs[1].ID, UnlockConditions: *pd.r.UC}},
+			SiacoinOutputs: []types.SiacoinOutput{{Value: scs[0].SiacoinOutput.Value.Add(scs[1].SiacoinOutput.Value), Address: sink}}}
+		if s.ResignV1(&t) {
+			supp := consensus.V1BlockSupplement{Transactions: []consensus.V1TransactionSupplement{{SiacoinInputs: []types.SiacoinElement{scs[0].Copy(), scs[1].Copy()}}}}
+			mk := func(kind string, c types.Transaction) mutant {
+				blk := types.Block{Timestamp: ts, Transactions: []types.Transaction{c}}
+				if s.V2Allowed() {
+					blk.V2 = &types.V2BlockData{}
+				}
+				return seal(kind, blk, chain.CopySupp(supp))
+			}
+			control = append(control, mk("v1-two-inputs-same-conditions-honest", cloneV1(t)))
+			second, first := types.Hash256(scs[1].ID), types.Hash256(scs[0].ID)
+			{ // the signatures of the second input are dropped
+				c := cloneV1(t)
+				var keep []types.TransactionSignature
+				for _, sg := range c.Signatures {
+					if sg.ParentID != second {
+						keep = append(keep, sg)
+					}
+				}
+				c.Signatures = keep
+				attacks = append(attacks, mk("v1-second-input-same-address:sigs-dropped", c))
+			}
+			{ // the signatures of the second input are copies of the first input's (re-labelled with the second parent)
+				c := cloneV1(t)
+				var firsts [][]byte
+				for _, sg := range c.Signatures {
+					if sg.ParentID == first {
+						firsts = append(firsts, sg.Signature)
+					}
+				}
+				k := 0
+				for i := range c.Signatures {
+					if c.Signatures[i].ParentID == second && k < len(firsts) {
+						c.Signatures[i].Signature = append([]byte(nil), firsts[k]...)
+						k++
+					}
+				}
+				attacks = append(attacks, mk("v1-second-input-same-address:sigs-copied-from-first", c))
+			}
+			{ // the signatures of the second input are the first input's entries, duplicated as they are
+				c := cloneV1(t)
+				var keep, firsts []types.TransactionSignature
+				for _, sg := range c.Signatures {
+					if sg.ParentID != second {
+						keep = append(keep, sg)
+					}
+					if sg.ParentID == first {
+						firsts = append(firsts, sg)
+					}
+				}
+				c.Signatures = append(keep, firsts...)
+				attacks = append(attacks, mk("v1-second-input-same-address:first-sigs-duplicated", c))
+			}
+		}
+	}
+	return
+}
+
 // c03InBlockRotation builds a block [key-rotating revision of X ; renewal of X] in which the
 // renewal is signed by (a) the pre-block keys, (b) the keys as they stand after the revision.
 func c03InBlockRotation(s *chain.Sim, ts time.Time, miner types.Address) (pre, post *mutant) {
@@ -912,7 +1242,7 @@ func c03Why(e string) string {
 		e = e[i+len("is invalid: "):]
 	}
 	for _, k := range []string{"superfluous signature", "superfluous preimage", "invalid signature", "invalid preimage", "threshold not reached",
-		"claims incorrect value", "claims incorrect maturity height", "nonexistent ephemeral output", "claims incorrect policy", "claims incorrect unlock conditions", "is invalid", "is redundant", "uses an entropy public key", "missing signatures", "nonexistent public key",
+		"opaque policy", "claims incorrect value", "claims incorrect maturity height", "nonexistent ephemeral output", "claims incorrect policy", "claims incorrect unlock conditions", "is invalid", "is redundant", "uses an entropy public key", "missing signatures", "nonexistent public key",
 		"unsigned FoundationAddressUpdate", "does not spend an input controlled by current address", "has invalid renter signature",
 		"has invalid host signature", "attestation", "timelock", "references parent not present", "opaque policy"} {
 		if strings.Contains(e, k) {
@@ -961,6 +1291,8 @@ func runC03(c *fw.Ctx) {
 		s := chain.NewSim(rand.New(rand.NewSource(seed)), mode)
 		ab := chain.NewAbstractor(s)
 		res.Count("chains:" + mode)
+		payRng := rand.New(rand.NewSource(seed ^ 0x70617932)) // keys of the inserted pay-twice blocks: independent of the sweep's own draws
+		var pending *c03Pending
 		for k := 0; k < blocks; k++ {
 			p := s.BuildBlock()
 			height := s.ChildHeight()
@@ -1028,6 +1360,36 @@ func runC03(c *fw.Ctx) {
 					att = keep
 				}
 				ms = append(att, ms...)
+			}
+			// two outputs paid to ONE address by the previous (inserted) block, spent together: honest spends must be
+			// accepted; a corrupted witness on the second input only (or the first only) must be rejected
+			if pending != nil {
+				ctl, att := c03SecondInput(s, x.rng, pending, p.Block.Timestamp, p.Miner)
+				res.Count("same-address:" + pending.kind)
+				pending = nil
+				if !replaying || height == only.Replay.Height {
+					for _, m := range ctl {
+						err := consensus.ValidateBlock(s.Tip, m.block, m.supp)
+						res.Eval(fmt.Sprintf("%s/%d/%d/%s", mode, seed, height, m.kind), true)
+						if err != nil {
+							res.Count("control-rejected:" + m.kind)
+							res.Violate(fw.Violation{Key: "c03-untampered-rejected:" + m.kind, What: "an honest transaction spending two outputs of one address was rejected: " + err.Error(),
+								Replay: map[string]any{"mode": mode, "seed": seed, "height": height, "tamper": m.kind, "block": fw.Hex(chain.Encode(types.V2Block(m.block)))}, Expected: "accepted", Observed: "rejected"})
+						} else {
+							res.Count("control-accepted:" + m.kind)
+						}
+					}
+					if replaying {
+						var keep []mutant
+						for _, m := range att {
+							if m.kind == only.Replay.Tamper {
+								keep = append(keep, m)
+							}
+						}
+						att = keep
+					}
+					ms = append(att, ms...)
+				}
 			}
 			legacyWindow := height < s.Net.HardforkV2.EphemeralOutputHeight
 			for _, m := range ms {
@@ -1109,6 +1471,13 @@ func runC03(c *fw.Ctx) {
 			if c.Model != nil {
 				x.ops = append(x.ops, line)
 				x.outs = append(x.outs, "ok "+ab.DumpUpdate(au, s.Tip, parent))
+			}
+			// every sixth block is followed by an inserted block that pays two outputs to one fresh address
+			if k%6 == 4 {
+				if pd := c03PayTwice(s, payRng, p.Block.Timestamp, p.Miner); pd != nil {
+					pending = pd
+					res.Count("pay-twice-blocks")
+				}
 			}
 		}
 		for k, v := range s.Counts {
